@@ -48,7 +48,10 @@ from core.common import f2b, b2f, close, HARNESS, REPO
 
 ID = "C19"
 LEAN_MODULES = ["AcnProofs.C19", "AcnProofs.C19Abort"]
-TIE_MODULES = ["AcnProofs.Lemmas.CodeTieSimEvent"]
+TIE_MODULES = ["AcnProofs.Lemmas.CodeTieSimEvent",
+               # T1c, group StochOps (builder9-T1c): contrib StochasticNetwork.available_evses / plugin / unplug /
+               # post_charging_update translated from the source and proved to refine Stoch.Net.free / plugin / unplug / post
+               "AcnProofs.Lemmas.CodeTieStochOps", "AcnProofs.Lemmas.CodeTieStochPost"]
 DRIVER = "drv_C19"
 REQUIRED_THEOREMS = [
     "Acn.C19.place_unique", "Acn.C19.no_wait_while_free", "Acn.C19.fifo_admission",
